@@ -107,8 +107,13 @@ def _table(ctx) -> None:
         nm = kw(v, "name")
         if nm != ("attr", col, "_name"):
             problems.append(f"result column is named `{sh(nm, 40)}`, expected the source column's stored name")
-        if kw(v, "dtype") is not None or len(v[2]) > 1:
-            problems.append("result column is given an explicit dtype")
+        # the sorted column holds the same elements in another order: it keeps the source column's dtype ("sorting a sorted table
+        # changes nothing" - re-inference would turn <int?> without a None into <int>, <object> into <int>, and leave the columns
+        # of an empty table without a dtype)
+        dtv = kw(v, "dtype") if kw(v, "dtype") is not None else (v[2][1] if len(v[2]) > 1 else None)
+        if dtv != ("attr", col, "_dtype"):
+            problems.append(f"result column is given the dtype `{sh(dtv, 30) if dtv is not None else 'inferred anew'}`, expected the source "
+                            f"column's own dtype (a sorted table must not change schema)")
         empty_ok = data[0] == "obj" and it.objs[data[1]].kind == "list" and not it.objs[data[1]].init and not elements(it, data) \
             and any(c == ("cmp", "Eq", nrows, const(0)) and pol for c, pol in r.conds)
         if empty_ok:
@@ -408,6 +413,8 @@ def _purity(ctx) -> None:
 
 _T, _V = "table", "vector"
 MUTANTS = [
+    dict(id="sorted-columns-reinferred", module="table", old="			new_cols.append(Vector(new_data, dtype=col._dtype, name=col._name))",
+         new="			new_cols.append(Vector(new_data, name=col._name))", rules=["a.permutation"], desc="the defect repaired by fix f8a493c"),
     dict(id="sort-without-reverse", module=_T, old="			indices.sort(key=key_fn, reverse=rev)", new="			indices.sort(key=key_fn)", rules=["b.stable-keys"]),
     dict(id="flags-reversed", module=_T, old="		for col, rev in reversed(list(zip(resolved, rev_flags))):", new="		for col, rev in reversed(list(zip(resolved, reversed(rev_flags)))):",
          rules=["b.stable-keys", "d.flags"]),
